@@ -307,6 +307,16 @@ def run(props, tier, seed):
             v = verdict(shuffled, base, w, **kw)
             if v is not None:
                 b.check('C05.sortby-condition', v == expect, w, 'pass=%r expected %r' % (v, expect))
+        # a column dropped or renamed while the type check does not cover it: a described failure, not an internal error
+        for kw in ({'check_types': False}, {'check_types': ['a']}, {'check_types': False, 'check_order': False},
+                   {'check_types': ['a'], 'check_data': ['a', 'b']}):
+            for how, frame in (('dropped', base[[c for c in base if c != 'b']]),
+                               ('renamed', base.rename(columns={'b': 'b_renamed'}))):
+                w = {'case': 'column %s, type check not covering it' % how, 'options': {k: repr(v) for k, v in kw.items()}}
+                b.case(('structure-untyped', how, repr(sorted(kw.items()))))
+                v = verdict(frame, base, w, **kw)
+                if v is not None:
+                    b.check('C05.column-change-fails', v is False, w, 'passed')
         # both frames out of key order, each in its own order: sortby must bring both into the same order
         shuffled2 = base.iloc[[1, 2, 0]].reset_index(drop=True)
         for kw, expect in (({}, False), ({'sortby': ['a']}, True)):
